@@ -649,7 +649,13 @@ func (c *Ctx) loadGlobal(s *State, g *ssa.Global) Value {
 	if v, ok := c.eng.globalConst(c, s, g); ok {
 		return v
 	}
-	return c.loadAt(s, c.globalRef(g), et)
+	v := c.loadAt(s, c.globalRef(g), et)
+	// exported sentinel errors of the standard library (net.ErrClosed, io.EOF, ...) are non-nil
+	if iv, ok := v.(If); ok && !c.eng.repoPkgPaths[g.Pkg.Pkg.Path()] && (strings.HasPrefix(g.Name(), "Err") || g.Name() == "EOF") {
+		s.assume(Neq(iv.Typ, IntLit(0)))
+		c.note("standard-library sentinel error " + g.Pkg.Pkg.Name() + "." + g.Name() + " assumed non-nil")
+	}
+	return v
 }
 
 func (c *Ctx) storeGlobal(s *State, g *ssa.Global, v Value) {
